@@ -34,6 +34,16 @@ theorem breakTime_noshift (z : Zone) (h : Nat) (t : Int)
   · rw [hc]; simp
   · omega
 
+/-- the hint never changes the answer of `BreakTime` (either path) -/
+theorem breakTime_hint_irrelevant (z : Zone) (wf : TableWF z) (h h' : Nat) (t : Int) :
+    (breakTime z h t).val.1 = (breakTime z h' t).val.1 := by
+  rw [breakTime_val, breakTime_val]
+  by_cases c : TakesShift z t
+  · rw [if_pos c, if_pos c]
+    simp only [breakTimeCore_hint_irrelevant z wf h h']
+  · rw [if_neg c, if_neg c]
+    exact breakTimeCore_hint_irrelevant z wf h h' t
+
 /-! ## `YearShift` -/
 
 theorem yearShift_spec (cs : Fields) (v : Valid cs) (q : Int) :
